@@ -6,6 +6,7 @@ import (
 	"io"
 	"log/slog"
 	"os"
+	"path/filepath"
 	"runtime/pprof"
 	"sort"
 	"strings"
@@ -49,7 +50,7 @@ func (f *faultRepo) Assets() ([]string, error) {
 
 // per-asset situation
 type syncAsset struct {
-	Target int  // number of snapshots already in the target (0 = asset absent), dated d0..
+	Target int  // number of snapshots already in the target (0 = asset absent, -1 = a zero-byte file exists: file-system target only), dated d0..
 	Source bool // present at the source with d0..d3
 	Fault  bool // target Append fails
 }
@@ -94,7 +95,7 @@ func expectedSync(s syncScen) (map[string][]int, bool) {
 		for d := 0; d < a.Target; d++ {
 			cur = append(cur, d)
 		}
-		requested := s.Explicit || a.Target > 0
+		requested := s.Explicit || a.Target != 0 // an existing (even empty) file registers the asset
 		if requested {
 			start := syncDefaultStart
 			if a.Target > 0 {
@@ -145,6 +146,9 @@ func syncScenario(s syncScen) explore.Scenario {
 						sn = append(sn, snap(d, 0))
 					}
 					source.Append(name, Feed(sn, 0))
+				}
+				if a.Target < 0 && dir != "" {
+					os.WriteFile(filepath.Join(dir, name+".csv"), nil, 0o600)
 				}
 				if a.Target > 0 {
 					var sn []*asset.Snapshot
@@ -247,6 +251,14 @@ func syncScens(tier string) []syncScen {
 					}
 				}
 			}
+		}
+	}
+	// a zero-byte asset file in a file-system target (e.g. created to register a new asset)
+	for _, ex := range []bool{true, false} {
+		for _, w := range []int{1, 2} {
+			out = append(out, syncScen{[]syncAsset{{-1, true, false}}, w, ex, "filesystem"})
+			out = append(out, syncScen{[]syncAsset{{-1, true, false}, {1, true, false}}, w, ex, "filesystem"})
+			out = append(out, syncScen{[]syncAsset{{2, true, false}, {-1, true, false}}, w, ex, "filesystem"})
 		}
 	}
 	// three assets: representative situations per asset on the file-system target (and in memory in the thorough tier)
